@@ -92,41 +92,49 @@ Theorem C03_join_with_options_sound : forall env p f t jb jt t1,
 Proof. exact apply_full_join_sound. Qed.
 
 (* Whole programs over engines of BOTH kinds — SQL engines and iteration engines, any number of each: leaves,
-   every unary operation with a preferred engine and any backtrack / require combination (not a projection, finding
-   F2; no transfer option), __getitem__, chains, joins (operands in one engine; or the target in an iteration
-   engine and the operand elsewhere, without transfer: inserted upstream by backtracking or refused), materializations, explicit
-   transfers that do not undo an earlier one.  Every tree such a program builds denotes the specification of the
-   program (the rows, in order, of applying every call at the root), is well-formed, has the specified columns,
-   lives in the specified engine, and has the shape (`shape_ok`: conformed SELECT markers in SQL engines, plain nodes
-   in iteration engines) that C03_apply_with_options_sound, C03_join_with_options_sound and the transfer lemma need of
-   their inputs — so the call-by-call theorems compose along any program. *)
+   every unary operation with any preferred engine and any backtrack / transfer / require combination, __getitem__,
+   chains, joins, materializations, explicit transfers.  Every tree such a program builds denotes the specification of
+   the program (the rows, in order, of applying every call at the root), is well-formed, has the specified columns, and
+   has the shape (`shape_ok`: conformed SELECT markers in SQL engines, plain nodes in iteration engines) that
+   C03_apply_with_options_sound, C03_join_with_options_sound and the transfer lemma need of their inputs — so the
+   call-by-call theorems compose along any program.  The side conditions (`mixprog_ok`) speak about the relation each
+   call is applied to: a projection with a preferred engine meets no deduplication on the way (finding F2) and asks for
+   no transfer; a transfer (explicit or as an option) does not undo an earlier one, and with an SQL destination is not
+   combined with backtracking through an iteration tree; join operands have columns and are in one engine, or the target
+   is in an iteration engine, no transfer is asked for and the ColumnTag contract holds where the join may be moved. *)
 Theorem C03_programs_over_both_engine_kinds_denote_their_specification : forall env p t,
   mixprog_ok env p -> build_multi p = Ok t ->
-  sem_tree env t = spec_mprog env p /\ wf_tree t /\ env_ok env t /\ columns t = mprog_cols p /\
-  shape_ok env t /\ engine_of t = mprog_engine p.
+  sem_tree env t = spec_mprog env p /\ wf_tree t /\ env_ok env t /\ columns t = mprog_cols p /\ shape_ok env t.
 Proof. exact build_multi_mixed_built. Qed.
 
-(* non-vacuity: a table in an SQL engine, transferred to an iteration engine, a calculation there, then a selection
-   preferring the SQL engine: the program is in scope, and the selection is inserted below the transfer *)
+(* non-vacuity: a table in an SQL engine, transferred to an iteration engine, a calculation there, a selection
+   preferring the SQL engine (inserted below the transfer by backtracking), then a sort asking to be transferred into
+   the SQL engine: the program is in scope *)
 Example C03_mixed_program_in_scope :
   let S := Eng KSql 0 in let I := Eng KIter 0 in
   let a := 2%positive in let b := 4%positive in let c := 6%positive in
   let env := fun n : positive => if Pos.eqb n 1 then [mkrow [(a, 1); (b, 5)]; mkrow [(a, 0); (b, 7)]] else [] in
-  let p := MpUn (Sel (PCmp CGt (ERef a) (ELit 0))) (Opts (Some S) true false false)
+  let p1 := MpUn (Sel (PCmp CGt (ERef a) (ELit 0))) (Opts (Some S) true false false)
              (MpUn (Calc c (EAdd (ERef a) (ELit 1))) default_opts (MpXfer I (MpLeaf 1 S (mkset [a; b]) 0 None))) in
+  let p := MpUn (Sort [(ERef b, true)]) (Opts (Some S) false true false) p1 in
   mixprog_ok env p /\
-  match build_multi p with
+  match build_multi p1 with
   | Ok (Un (Calc _ _) (Xfer _ (SelM _ (Un (Sel _) (Leaf _ _ _ _ _)) _))) => True
   | _ => False
-  end.
+  end /\
+  match build_multi p with Ok (SelM _ _ _) => True | _ => False end.
 Proof.
-  cbv zeta. split.
-  - cbn [mixprog_ok o_pref default_opts is_proj o_transfer]. repeat split.
+  cbv zeta. split; [|split].
+  - cbn [mixprog_ok]. repeat split.
     + apply (bool_decide_eq_true_1 _). vm_compute. reflexivity.
     + apply rows_domb_spec. vm_compute. reflexivity.
     + apply Z.le_refl.
     + vm_compute. discriminate.
     + intros t0 Hb. vm_compute in Hb. injection Hb as <-. reflexivity.
+    + intros t0 Hb. unfold unary_scope. cbn [o_pref o_transfer is_proj]. discriminate.
+    + match goal with H : build_multi _ = Ok _ |- _ => vm_compute in H; injection H as <- end. reflexivity.
+    + intros _. left. reflexivity.
+  - vm_compute. exact I.
   - vm_compute. exact I.
 Qed.
 
